@@ -264,6 +264,21 @@ HttpHdrCc::parse(const String & str)
     return (mask != 0);
 }
 
+/// writes ="value" with DQUOTE and backslash escaped as quoted-pairs, so that
+/// parsing the packed directive yields the same value again
+static void
+packQuotedArgument(Packable &p, const String &value)
+{
+    p.append("=\"", 2);
+    for (String::size_type i = 0; i < value.size(); ++i) {
+        const char c = value[i];
+        if (c == '"' || c == '\\')
+            p.append("\\", 1);
+        p.append(&c, 1);
+    }
+    p.append("\"", 1);
+}
+
 void
 HttpHdrCc::packInto(Packable * p) const
 {
@@ -287,12 +302,12 @@ HttpHdrCc::packInto(Packable * p) const
                 break;
             case HttpHdrCcType::CC_PRIVATE:
                 if (private_.size())
-                    p->appendf("=\"" SQUIDSTRINGPH "\"", SQUIDSTRINGPRINT(private_));
+                    packQuotedArgument(*p, private_);
                 break;
 
             case HttpHdrCcType::CC_NO_CACHE:
                 if (no_cache.size())
-                    p->appendf("=\"" SQUIDSTRINGPH "\"", SQUIDSTRINGPRINT(no_cache));
+                    packQuotedArgument(*p, no_cache);
                 break;
             case HttpHdrCcType::CC_NO_STORE:
                 break;
